@@ -97,3 +97,26 @@ claim("C15", "other", "constant-set extraction by value; exhaustive exploration 
       "Does NOT decide Split(Join(ss)) == ss as an input/output fact, nor what a real shell does with the output.",
       BASE_NOTE + " POSIX XCU 2.2's list of special characters is the oracle for the set rule.",
       "DESIGN.md section 3, C15")
+claim("C01", "other", "provenance of clone's links; stop-flag path rule; orientation derived from the in-order walk and checked on descents, navigation and the bulk loader; value-flow of the stored root; must-pass dedup",
+      "Decides structural clauses: Tree.Clone is a deep copy (every node allocated by node.clone links only to copies, the original is never written, Clone's root is clone(root)) so "
+      "clone and original cannot affect each other; in-order iteration stops when told and forwards the stop flag; the side holding smaller keys is read from the ascending in-order "
+      "walk and all four key descents (insert, remove, Get, pathTo), Min/Max, popMinRight, inorderAfter and the bulk loader agree with it, with comparator results tested by sign; "
+      "popMinRight re-attaches the removed minimum's subtree; the root stored by Add/Replace/Remove derives from the modification's result on every changing path; New sorts and "
+      "de-duplicates on every path to the bulk loader. Does NOT decide that contents and results equal a reference set over histories, size/max bookkeeping, or the DSW rebuild.",
+      BASE_NOTE + " Assumes iteration callbacks do not mutate the tree.",
+      "DESIGN.md section 3, C01")
+claim("C03", "other", "dominance guard (Valid) on every cursor dereference; provenance of Clone's path; orientation table; sibling agreement (HasNext~Next, HasPrev~Prev); delegation rule for Inorder",
+      "Decides structural clauses: every dereference of a cursor in its methods (and every call of the private findNext/findPrev) is dominated by a successful Valid() check and the "
+      "invalid path returns the receiver / false / the zero key - so operations on a nil or exhausted cursor are harmless no-ops; Clone copies the path (or returns the receiver "
+      "only when invalid) so clones move independently; every navigation method reads the child sides binary-search-tree navigation requires relative to the in-order orientation; "
+      "HasNext/HasPrev apply exactly the tests Next/Prev apply to findNext/findPrev's results, so they predict the move; Cursor.Inorder delegates to the subtree walker on the "
+      "current node and is stoppable. Does NOT decide that Next/Prev land on exactly the adjacent key for every tree shape, nor Cursor(key) validity.",
+      BASE_NOTE,
+      "DESIGN.md section 3, C03")
+claim("C04", "other", "dominance guard (!= nil) with kill check on every use of the tree pointer; shared stree rules (descents, relink, cursor nil-safety); reset-first rule for Seek",
+      "Decides: 'a zero Map behaves as an empty read-only map' - every use of Map.m / Iter.m as a (bound) method receiver in package omap is under a != nil guard of the same field "
+      "(Map.Set exempt as documented), and the cursor methods omap calls on a possibly nil cursor are nil-safe (C03's guard rule re-run); the tree's key descents agree with "
+      "iteration order and test comparator results by sign; deleting a two-child node re-attaches the successor's subtree; Seek invalidates the cursor before searching so a seek "
+      "past the last key leaves the iterator invalid. Does NOT decide agreement with a reference sorted map, Seek's exact position, or iterator order.",
+      BASE_NOTE,
+      "DESIGN.md section 3, C04")
